@@ -276,3 +276,11 @@ Inductive thr := TWorker (i : N) | TReporter.
 Inductive exitw := ExitWith (code : N) (spawned : list thr).
 Definition unwrap_x {A} (site : nat) (x : outcome exitw A) : outcome exitw A :=
   match x with Ok a => Ok a | Err _ => Panic site | Panic s => Panic s end.
+
+(* socket builders (net2): the options set before bind / listen. bind_opts is the environment's answer for an
+   address and a set of options (the kernel's rule lives in Model/Process.v tcp_bind_ok / the port table) *)
+Record sockopts := mksockopts { so_v6 : bool; so_reuse_addr : bool; so_reuse_port : bool }.
+Inductive bound := Bound (v6 : bool) (reuse_addr reuse_port : bool) (backlog : N).
+Inductive saddr := AddrV4 | AddrV6.
+Definition unwrap_u {A} (site : nat) (x : outcome unit A) : outcome unit A :=
+  match x with Ok a => Ok a | Err _ => Panic site | Panic s => Panic s end.
